@@ -246,6 +246,39 @@ theorem clear_get {α : Type} (m : Tab α) (ids : List Nat) :
         simp only [h4, if_false]
         cases hm : (m.get a).isSome <;> simp [get_erase, h3]
 
+/-- row by row, the last write wins -/
+theorem persistOcc_last (occ post : List (Nat × Nat)) (t : Tab Nat) (id d : Nat)
+    (hpost : ∀ p ∈ post, p.1 ≠ id) :
+    (persistOcc t (occ ++ (id, d) :: post)).get id = some d := by
+  unfold persistOcc
+  rw [List.foldl_append, List.foldl_cons]
+  generalize (List.foldl (fun t p => Tab.put t p.1 p.2) t occ) = t0
+  have key : ∀ (post : List (Nat × Nat)) (t1 : Tab Nat), (∀ p ∈ post, p.1 ≠ id) → t1.get id = some d →
+      (List.foldl (fun t p => Tab.put t p.1 p.2) t1 post).get id = some d := by
+    intro post
+    induction post with
+    | nil => intro t1 _ h; exact h
+    | cons a r ih =>
+      intro t1 hp h
+      simp only [List.foldl_cons]
+      apply ih
+      · intro p hp'; exact hp p (List.mem_cons_of_mem _ hp')
+      · have : a.1 ≠ id := hp a (List.mem_cons_self ..)
+        rw [get_put]; simp [this, h]
+  exact key post _ hpost (by rw [get_put]; simp)
+
+/-- ids that do not occur are untouched -/
+theorem persistOcc_other (occ : List (Nat × Nat)) (t : Tab Nat) (id : Nat)
+    (h : ∀ p ∈ occ, p.1 ≠ id) : (persistOcc t occ).get id = t.get id := by
+  unfold persistOcc
+  induction occ generalizing t with
+  | nil => rfl
+  | cons a r ih =>
+    simp only [List.foldl_cons]
+    rw [ih _ (fun p hp => h p (List.mem_cons_of_mem _ hp)), get_put]
+    have : a.1 ≠ id := h a (List.mem_cons_self ..)
+    simp [this]
+
 /-! ### the invariant -/
 
 /-- an entity without blame is stored exactly as it is in memory -/
